@@ -12,6 +12,7 @@
   theorem (explored on the implementation): the two SMGP types of the open finding.
 -/
 import SmsVerif.Props.C01
+import SmsVerif.Props.C02
 import SmsVerif.Lemmas.DecodedFits
 
 namespace SmsVerif.C11
@@ -100,6 +101,23 @@ theorem C11_accepted_reencodes (p : PduDesc) (hp : p ∈ Gen.allPdus) (hx : notC
   obtain ⟨rfl, rfl⟩ := hits'
   exact ⟨lf, its, hits, fun hsz => hst r hfit hsz⟩
 
+/-- **C11_reencoded_is_frame**: what a relay sends on is a frame — the re-encoded image of any accepted
+    octet string is the reference serialisation of the document table for the decoded values, and
+    (for every type that has a message header) its first four octets are its own length, so the
+    framer at the next hop cuts exactly this image. -/
+theorem C11_reencoded_is_frame (p : PduDesc) (hp : p ∈ Gen.allPdus) (hx : notCovered.contains p.name = false)
+    (hd : C02.deviations.contains p.name = false)
+    (data : Bytes) (hoct : ∀ x ∈ data, x < 256) (r : Rec) (hdec : p.decode data = .ok r) :
+    ∃ s ∈ Spec.all, s.pdu = p.name ∧ ∃ bs r', p.encode r = .ok (bs, r') ∧
+      (s.lenField.isSome = true → bs.take 4 = be 4 bs.length) := by
+  have hchk := List.all_eq_true.1 layouts_decoded_fit p (List.mem_filter.2 ⟨hp, by rw [hx]; rfl⟩)
+  obtain ⟨lf, its, hits, hfit, _⟩ := decode_fits p hchk data hoct r hdec
+  obtain ⟨s, hs, hn, lf', its', hits', henc⟩ := C02.C02_bytes_are_spec p hp hd
+  rw [hits] at hits'
+  simp only [Option.some.injEq, Prod.mk.injEq] at hits'
+  obtain ⟨rfl, rfl⟩ := hits'
+  exact ⟨s, hs, hn, _, _, henc r hfit, fun hl => C02.C02_length_prefix s hl _⟩
+
 /-- non-vacuity: a CMPP 3.0 deliver-response image with junk in every field is accepted, and the
     theorem's premises hold for it -/
 example : (match Gen.cmpp30_DeliverResp.decode (be 4 24 ++ be 4 0x80000005 ++ be 4 7 ++ be 8 0x1122334455667788 ++ be 4 9) with
@@ -113,5 +131,6 @@ open SmsVerif.C11
 #print axioms C11_normalisations_are_documented
 #print axioms C11_same_fields_same_bytes
 #print axioms C11_accepted_reencodes
+#print axioms C11_reencoded_is_frame
 #print axioms layouts_decoded_fit
 end
